@@ -23,7 +23,9 @@
 (* the store under the write lock unless the key is known to be absent.                     *)
 EXTENDS Integers, Sequences, TLC
 
-CONSTANTS Vals                      \* value universe 1..N
+CONSTANTS Vals,                     \* value universe 1..N
+          Defects                   \* {} = the contract; {"computeSwallowsEnc"} = negative control (the
+                                    \* defect hive.go had: Compute ignores a failing encoder)
 VARIABLES cfg, cell, kn, cval, last, ev
 vars == <<cfg, cell, kn, cval, last, ev>>
 View == <<cfg, cell, kn, cval, last>>
@@ -81,6 +83,8 @@ ComputeStep(S, fk, fv, fail) ==
   ELSE IF reads /\ ex /\ fail = "dec" THEN Keep(S, CRes("decErr", None, None))
   ELSE IF fk = "err" THEN Keep(S, CRes("fnErr", None, seen))
   ELSE IF fk \in {"same", "wsame"} THEN Keep(S, CRes("ok", <<cur>>, seen))
+  ELSE IF fail = "enc" /\ "computeSwallowsEnc" \in Defects
+         THEN [res |-> CRes("ok", <<nv>>, seen), S |-> [S EXCEPT !.kn = "val", !.cval = <<nv>>]]
   ELSE IF fail = "enc" THEN Keep(S, CRes("encErr", None, seen))
   ELSE IF fail = "storeSet" THEN Keep(S, CRes("storeErr", None, seen))
   ELSE [res |-> CRes("ok", <<nv>>, seen), S |-> Written(nv)]
